@@ -1077,6 +1077,8 @@ func (s *SSEServer) sendSuccessResponse(requestID interface{}, result interface{
 	fullResponseData, err := json.Marshal(response)
 	if err != nil {
 		s.logger.Errorf("Error encoding full response: %v", err)
+		// The result cannot be encoded: answer with an internal error instead of nothing.
+		s.handleRequestError(fmt.Errorf("failed to encode result: %w", err), requestID, session)
 		return
 	}
 
